@@ -302,6 +302,7 @@ class CasXmiDeserializer:
 
                 # We need to make sure that the sofa gets the real xmi, see #155
                 view.get_sofa().xmiID = sofa.xmiID
+                view.get_sofa().sofaNum = sofa.sofaNum
             else:
                 view = cas.create_view(sofa.sofaID, xmiID=sofa.xmiID, sofaNum=sofa.sofaNum)
 
